@@ -563,7 +563,9 @@ def run(ctx):
                 "non-trivial = image differs from the intact file, resp. distinct (state, event) transition")
     ctx.exhaustive = not ctx.quick
     ctx.assumptions += ["a crash leaves a prefix of the application's writes (no reordering below the file API)",
-                        "zip/zanj timestamps frozen while recording so that the enumerated offsets are reproducible"]
+                        "zip/zanj timestamps frozen while recording so that the enumerated offsets are reproducible",
+                        "the minimal format pads its solution array with uninitialised memory (np.empty), so the compressed size of a >= 100-maze file - and with it the "
+                        "number of truncation / corruption offsets of `dfs120` - varies by a few bytes from run to run; every run enumerates the images of ITS recorded save"]
 
 
 def dispatch(t, res):
